@@ -295,7 +295,7 @@ class C19(fw.Prop):
             return ("act", [f"ar:{INV0}:0"])
         if r < 0.94:
             return ("act", [f"ard:{INV0}:0:{hx(pattern(rng.randint(1, 300), 9))}:invalid"])
-        return ("act", [rng.choice([f"are:{INV0}:{rng.choice(ARS)}:{rng.choice(DAR)}", f"ar:{INV0}:{rng.choice(ARS)}",
+        return ("act", [rng.choice([f"are:{INV0}:{rng.choice([0] + ARS)}:{rng.choice(DAR)}", f"ar:{INV0}:{rng.choice(ARS)}",
                                     f"ard:{INV0}:{rng.choice(ARS)}:0901aa:invalid"])])
 
     def cases(self, rng, tier, deep):
@@ -337,7 +337,10 @@ class C19(fw.Prop):
                 yield case([("set", [o]), ("act", [o])], "set-act-other")
             for st in [0] + ARS:
                 yield case([("act", [f"ar:{INV0}:{st}"]), ("act", [f"ard:{INV0}:{st}:{hx(pattern(st + 1, st))}:invalid"]),
-                            ("act", [f"are:{INV0}:{st if st else 1}:{DAR[st % len(DAR)]}"]), ("get", [f"gn:{INV0}:0901ff"])], "action")
+                            ("act", [f"are:{INV0}:{st}:{DAR[st % len(DAR)]}"]), ("get", [f"gn:{INV0}:0901ff"])], "action")
+            # an error answer whose status says success is still an error answer
+            for code in DAR:
+                yield case([("act", [f"are:{INV0}:0:{code}"]), ("get", [f"gn:{INV0}:0901ff"])], "action-error-status-success")
             yield case([("act", [f"ard:{INV0}:0:-:invalid"])], "action")
             # --- operations in states where they are not allowed
             for state in ("NO_ASSOCIATION", "AWAITING_GET_RESPONSE", "SHOULD_ACK_LAST_GET_BLOCK", "AWAITING_RELEASE_RESPONSE"):
